@@ -66,6 +66,10 @@ func runC14(e *Engine, g G, o RunOpt) RunInfo {
 	for i := 0; i < nconn; i++ {
 		sv := DefaultNeg()
 		sv.Mechs = c14Mechs(g, "mech")
+		if g.Pct("foreign-mechanism-children", 15) {
+			// ... nor is a child of another namespace inside the SASL list
+			sv.ForeignMechKids = []string{"PLAIN", "X-OAUTH2"}
+		}
 		if g.Pct("foreign-mechanisms", 20) {
 			// what another protocol offers is no offer of RFC 6120 SASL
 			sv.ForeignMechs = []string{"PLAIN", "X-OAUTH2", "SCRAM-SHA-1"}
